@@ -234,6 +234,9 @@ func genMetaCase(r *gen.Rand, impl string) *metaCase {
 		switch r.Intn(10) {
 		case 0, 1, 2, 3:
 			rec := &metaRec{Revoked: r.Chance(1, 3), Created: cr, Key: r.Intn(len(metaKeys)), PID: -1}
+			if r.Chance(1, 5) { // the record's own Created field need not repeat the creation time it is stored under
+				rec.Created = gen.Pick(r, stamps)
+			}
 			if r.Chance(2, 3) {
 				rec.PID, rec.PC = r.Intn(len(metaIDs)), gen.Pick(r, stamps)
 			}
